@@ -59,16 +59,19 @@ def rbField (q : Q) : String :=
 def answeredLine (cid : Nat) (q : Q) (closed cb : String) : String :=
   s!"R {q.rid} st={q.st} body={bodyField cid q} rb={rbField q} closed={closed} cb={cb}"
 
+/-- schedule letters of the K line.  `f` flushes the whole backlog before the job finishes: in the sampled
+    domain the kernel has taken a response before the next step of the job runs (a close that finds a
+    backlog is the known finding and comes in through `cut=`) -/
 def parseSched (s : String) : Option (List Act) :=
-  s.toList.mapM fun c =>
+  (s.toList.mapM fun c =>
     match c with
-    | 'p' => some Act.parse
-    | 's' => some Act.start
-    | 'w' => some (Act.write none)
-    | 'h' => some (Act.write (some 0))      -- short write: everything is queued
-    | 'l' => some (Act.flush 1)
-    | 'f' => some Act.finish
-    | _ => none
+    | 'p' => some [Act.parse]
+    | 's' => some [Act.start]
+    | 'w' => some [Act.write none]
+    | 'h' => some [Act.write (some 0)]      -- short write: everything is queued
+    | 'l' => some [Act.flush 1]
+    | 'f' => some [Act.flush 1000000000, Act.finish]
+    | _ => none).map List.flatten
 
 def mkCfg (sync : Bool) (qs : List Q) : Cfg Nat :=
   -- request k's response is two conn writes of one token each: 2k (head part) and 2k+1 (tail part)
